@@ -239,6 +239,10 @@ def math_java(repo_aldor):
         ps = [x.split() for x in params.split(",") if x.strip()]
         key = (name, tuple(x[0] for x in ps))
         meths[key] = ([x[1] for x in ps], rty, body.strip())
+    for m in re.finditer(r"public\s+static\s+(\w+)\s+(\w+)\s*\(([^)]*)\)\s*\{\s*throw\s+new\s+RuntimeException\s*\(\s*\)\s*;\s*\}", t):
+        rty, name, params = m.groups()
+        ps = [x.split() for x in params.split(",") if x.strip()]
+        meths[(name, tuple(x[0] for x in ps))] = ([x[1] for x in ps], rty, None)
     consts = {}
     for m in re.finditer(r"public\s+static\s+final\s+int\s+(\w+)\s*=\s*(-?\d+)\s*;", t):
         consts[m.group(1)] = int(m.group(2))
@@ -312,6 +316,9 @@ def build_row(name, method, gjtag, c1, c2, sig, ops, un_txt, meths, consts, shap
     jargs = []
     for i, a in enumerate(argtys):
         if a not in JAVA_TY:
+            if method == "GJ_Apply" and c1 == "foamj.Math":
+                jargs.append("(JOpaque %s)" % q("operand type " + a))
+                continue
             return "(JOpaque %s)" % q("operand type " + a), "type"
         jargs.append("(JArg %d %s)" % (i, JAVA_TY[a]))
 
@@ -362,6 +369,13 @@ def build_row(name, method, gjtag, c1, c2, sig, ops, un_txt, meths, consts, shap
         return "(JBin JRem %s %s)" % (binop(gjtag, jargs[0], jargs[1]), jargs[2]), None
     if method == "GJ_Apply":
         if c1 == "foamj.Math":
+            # a method that only throws, whatever its parameter types
+            throwing = [k for k, v in meths.items() if k[0] == c2 and v[2] is None]
+            others = [k for k, v in meths.items() if k[0] == c2 and v[2] is not None]
+            if throwing and not others and len(throwing[0][1]) == len(argtys):
+                return "(JThrows %s)" % q("foamj.Math." + c2), None
+            if any(a not in JAVA_TY for a in argtys):
+                return "(JOpaque %s)" % q("operand type"), "type"
             jt = tuple({"JBool": "boolean", "JChar": "char", "JByte": "byte", "JShort": "short", "JInt": "int"}[JAVA_TY[a]]
                        for a in argtys)
             # overload resolution: exact parameter types, else widening of byte/short/char to int
@@ -369,6 +383,8 @@ def build_row(name, method, gjtag, c1, c2, sig, ops, un_txt, meths, consts, shap
             if cand is None:
                 return "(JOpaque %s)" % q("foamj.Math.%s%s: no single-return method" % (c2, jt)), "math"
             pnames, prty, body = cand
+            if body is None:
+                return "(JThrows %s)" % q("foamj.Math." + c2), None
             try:
                 ast = cexpr.parse(body)
             except cexpr.CParseError as ex:
